@@ -544,6 +544,21 @@ func delPeer(t *Torrent, p *peer.Peer) bool {
 			t.peers = nil
 		}
 	}
+	// The peer's main loop has exited, so the requests that are still
+	// sitting in its event queue will never be handled.
+drain:
+	for {
+		select {
+		case e := <-p.Event:
+			if r, ok := e.(peer.PeerRequest); ok {
+				for _, c := range r.Chunks {
+					noteInFlight(t, c, false)
+				}
+			}
+		default:
+			break drain
+		}
+	}
 	// at this point, the dying peer won't reply to a GetPex request
 	addr := p.GetAddr()
 	if addr.Port() > 0 {
